@@ -619,3 +619,6 @@ rg_harness!(rg_toggle_alloc, rg_toggle_alloc_o0: 0, rg_toggle_alloc_o2: 2, rg_to
     rg_toggle_alloc_o7: 7, rg_toggle_alloc_o8: 8, rg_toggle_alloc_o9: 9);
 rg_harness!(rg_toggle_free, rg_toggle_free_o0: 0, rg_toggle_free_o2: 2, rg_toggle_free_o3: 3, rg_toggle_free_o4: 4, rg_toggle_free_o5: 5, rg_toggle_free_o6: 6,
     rg_toggle_free_o7: 7, rg_toggle_free_o8: 8, rg_toggle_free_o9: 9);
+pub(crate) fn row_ptr(b: &Bitfield) -> *const Atom<u64> {
+    &b.data[0] as *const Atom<u64>
+}
